@@ -25,11 +25,15 @@ Qed.
 
 (* ------------------------------------------------------------------ frame lemmas *)
 Lemma process_buf : forall E st line, buf (process E st line) = buf st.
-Proof. intros. unfold process. destruct (answer E (nline st) line) as [o c]. destruct o; reflexivity. Qed.
+Proof.
+  intros. unfold process. destruct (answer E (nline st) line) as [o c].
+  destruct o as [pre r|pre]; [destruct (send_seq (pre ++ [r])) as [fs ok]|]; reflexivity.
+Qed.
 
 Lemma process_set_buf : forall E st b line, process E (set_buf st b) line = set_buf (process E st line) b.
 Proof.
-  intros. unfold process, set_buf. simpl. destruct (answer E (nline st) line) as [o c]. destruct o; reflexivity.
+  intros. unfold process, set_buf. simpl. destruct (answer E (nline st) line) as [o c].
+  destruct o as [pre r|pre]; [destruct (send_seq (pre ++ [r])) as [fs ok]|]; reflexivity.
 Qed.
 
 Lemma set_buf_set_buf : forall st a b, set_buf (set_buf st a) b = set_buf st b.
@@ -39,7 +43,40 @@ Lemma set_buf_same : forall st, set_buf st (buf st) = st.
 Proof. destruct st; reflexivity. Qed.
 
 Lemma process_nline : forall E st line, nline (process E st line) = S (nline st).
-Proof. intros. unfold process. destruct (answer E (nline st) line) as [o c]. destruct o; reflexivity. Qed.
+Proof.
+  intros. unfold process. destruct (answer E (nline st) line) as [o c].
+  destruct o as [pre r|pre]; [destruct (send_seq (pre ++ [r])) as [fs ok]|]; reflexivity.
+Qed.
+
+(* ------------------------------------------------------------------ sending a sequence of messages *)
+Lemma send_seq_all : forall ms, forallb encodable ms = true -> send_seq ms = (frames ms, true).
+Proof.
+  induction ms as [|m ms IH]; intro H; [reflexivity|]. simpl in *. apply andb_true_iff in H. destruct H as [H1 H2].
+  rewrite H1, (IH H2). reflexivity.
+Qed.
+
+Lemma send_seq_sent : forall ms f, In f (fst (send_seq ms)) ->
+  exists m, In m ms /\ encodable m = true /\ f = encode_frame m.
+Proof.
+  induction ms as [|m ms IH]; intros f H; [destruct H|]. simpl in H.
+  destruct (encodable m) eqn:Em; [|destruct H].
+  destruct (send_seq ms) as [fs ok]. simpl in *. destruct H as [H|H].
+  - exists m. split; [left; reflexivity|]. split; [exact Em|]. symmetry. exact H.
+  - destruct (IH f H) as [m' [A [B C]]]. exists m'. split; [right; exact A|]. split; assumption.
+Qed.
+
+(* the first message that can not be encoded ends the sequence: it and everything behind it is not sent *)
+Lemma send_seq_stop : forall ms m ms', forallb encodable ms = true -> encodable m = false ->
+  send_seq (ms ++ m :: ms') = (frames ms, false).
+Proof.
+  induction ms as [|x ms IH]; intros m ms' H Hm; simpl.
+  - rewrite Hm. reflexivity.
+  - simpl in H. apply andb_true_iff in H. destruct H as [H1 H2]. rewrite H1, (IH m ms' H2 Hm). reflexivity.
+Qed.
+
+(* every message the request loop sends for line i can be encoded *)
+Definition line_enc (E : env) (i : nat) (line : bytes) : Prop :=
+  forall pre r c, answer E i line = (OReply pre r, c) -> forallb encodable (pre ++ [r]) = true.
 
 (* ------------------------------------------------------------------ get_msg *)
 Lemma get_msg_shorter : forall bs l rest, get_msg bs = Some (l, rest) -> (length rest < length bs)%nat.
@@ -213,46 +250,48 @@ Qed.
 Section Alive.
 Hypothesis HT : crash_free_table = true.
 Hypothesis HA : alias_not_help = true.
+Variable E : env.
+Hypothesis HEnc : forall i line, line_enc E i line.
 
-Lemma process_alive : forall E st line, alive (process E st line) = alive st.
+Lemma process_alive : forall st line, alive (process E st line) = alive st.
 Proof.
   intros. unfold process. destruct (answer_no_crash HT HA E (nline st) line) as [pre [r [c H]]].
-  rewrite H. reflexivity.
+  rewrite H. rewrite (send_seq_all _ (HEnc _ _ _ _ _ H)). simpl. apply andb_true_r.
 Qed.
 
-Lemma drain_alive : forall E n st, alive (drain n E st) = alive st.
+Lemma drain_alive : forall n st, alive (drain n E st) = alive st.
 Proof.
-  intros E n. induction n as [|n IH]; intro st; simpl; [reflexivity|].
+  intros n. induction n as [|n IH]; intro st; simpl; [reflexivity|].
   destruct (alive st) eqn:Al; [|exact Al].
   destruct (get_msg (buf st)) as [[l rest]|]; [|exact Al].
   rewrite IH, process_alive. simpl. exact Al.
 Qed.
 
-Lemma feed_alive : forall E st b, alive (feed E st b) = alive st.
+Lemma feed_alive : forall st b, alive (feed E st b) = alive st.
 Proof.
   intros. unfold feed. destruct (alive st) eqn:Al; [|exact Al]. rewrite drain_alive. simpl. exact Al.
 Qed.
 
 Lemma push_alive : forall st m, alive (push st m) = alive st.
-Proof. intros. unfold push. destruct (alive st) eqn:Al; simpl; congruence. Qed.
+Proof. intros. unfold push. destruct (alive st) eqn:Al; destruct (encodable m); simpl; congruence. Qed.
 
-Lemma step_alive : forall E st ev, alive (step E st ev) = alive st.
+Lemma step_alive : forall st ev, alive (step E st ev) = alive st.
 Proof. intros. destruct ev; simpl; [apply feed_alive|apply push_alive]. Qed.
 
-Lemma run_alive : forall E evs st, alive (run E st evs) = alive st.
+Lemma run_alive : forall evs st, alive (run E st evs) = alive st.
 Proof.
-  intros E evs. unfold run. induction evs as [|ev evs IH]; intro st; simpl; [reflexivity|].
+  intros evs. unfold run. induction evs as [|ev evs IH]; intro st; simpl; [reflexivity|].
   rewrite IH. apply step_alive.
 Qed.
 
-Lemma serve_alive : forall E evs, alive (serve E evs) = true.
+Lemma serve_alive : forall evs, alive (serve E evs) = true.
 Proof. intros. unfold serve. rewrite run_alive. reflexivity. Qed.
 
 (* ---- the buffer never holds a complete line between two events *)
-Lemma drain_all_drained : forall E n st, (length (buf st) < n)%nat -> alive st = true ->
+Lemma drain_all_drained : forall n st, (length (buf st) < n)%nat -> alive st = true ->
   get_msg (buf (drain_all E st)) = None.
 Proof.
-  intros E n. induction n as [|n IH]; intros st Hn Al; [lia|].
+  intros n. induction n as [|n IH]; intros st Hn Al; [lia|].
   rewrite drain_all_step, Al.
   destruct (get_msg (buf st)) as [[l rest]|] eqn:G; [|exact G].
   pose proof (get_msg_shorter _ _ _ G) as Hs.
@@ -261,51 +300,51 @@ Qed.
 
 Definition inv (st : conn) : Prop := alive st = true /\ get_msg (buf st) = None.
 
-Lemma feed_inv : forall E st b, inv st -> inv (feed E st b).
+Lemma feed_inv : forall st b, inv st -> inv (feed E st b).
 Proof.
-  intros E st b [Al G]. split; [rewrite feed_alive; exact Al|].
+  intros st b [Al G]. split; [rewrite feed_alive; exact Al|].
   rewrite feed_unfold, Al. eapply drain_all_drained; [apply Nat.lt_succ_diag_r|exact Al].
 Qed.
 
 Lemma push_inv : forall st m, inv st -> inv (push st m).
-Proof. intros st m [Al G]. unfold push. rewrite Al. split; simpl; assumption. Qed.
+Proof. intros st m [Al G]. unfold push. rewrite Al. destruct (encodable m); split; simpl; assumption. Qed.
 
-Lemma step_inv : forall E st ev, inv st -> inv (step E st ev).
+Lemma step_inv : forall st ev, inv st -> inv (step E st ev).
 Proof. intros. destruct ev; simpl; [apply feed_inv|apply push_inv]; assumption. Qed.
 
-Lemma run_inv : forall E evs st, inv st -> inv (run E st evs).
+Lemma run_inv : forall evs st, inv st -> inv (run E st evs).
 Proof.
-  intros E evs. unfold run. induction evs as [|ev evs IH]; intros st H; simpl; [exact H|].
+  intros evs. unfold run. induction evs as [|ev evs IH]; intros st H; simpl; [exact H|].
   apply IH. apply step_inv. exact H.
 Qed.
 
-Lemma serve_inv : forall E evs, inv (serve E evs).
+Lemma serve_inv : forall evs, inv (serve E evs).
 Proof. intros. apply run_inv. split; reflexivity. Qed.
 
 (* ---- chunking *)
-Lemma feed_nil : forall E st, inv st -> feed E st [] = st.
+Lemma feed_nil : forall st, inv st -> feed E st [] = st.
 Proof.
-  intros E st [Al G]. rewrite feed_unfold, Al, app_nil_r, set_buf_same, drain_all_step, Al, G. reflexivity.
+  intros st [Al G]. rewrite feed_unfold, Al, app_nil_r, set_buf_same, drain_all_step, Al, G. reflexivity.
 Qed.
 
-Lemma feed_feed' : forall E st a b, feed E (feed E st a) b = feed E st (a ++ b).
+Lemma feed_feed' : forall st a b, feed E (feed E st a) b = feed E st (a ++ b).
 Proof.
   intros. destruct (alive st) eqn:Al.
   - apply feed_feed. rewrite feed_alive. exact Al.
   - unfold feed. rewrite Al. rewrite Al. reflexivity.
 Qed.
 
-Lemma run_chunks : forall E cs st, inv st -> run E st (map Chunk cs) = feed E st (concat cs).
+Lemma run_chunks : forall cs st, inv st -> run E st (map Chunk cs) = feed E st (concat cs).
 Proof.
-  intros E cs. unfold run. induction cs as [|c cs IH]; intros st H; simpl.
+  intros cs. unfold run. induction cs as [|c cs IH]; intros st H; simpl.
   - symmetry. apply feed_nil. exact H.
   - rewrite IH; [|apply feed_inv; exact H]. apply feed_feed'.
 Qed.
 
-Lemma chunking : forall E evs0 cs cs', concat cs = concat cs' ->
+Lemma chunking : forall evs0 cs cs', concat cs = concat cs' ->
   run E (serve E evs0) (map Chunk cs) = run E (serve E evs0) (map Chunk cs').
 Proof.
-  intros E evs0 cs cs' H. rewrite !run_chunks by apply serve_inv. rewrite H. reflexivity.
+  intros evs0 cs cs' H. rewrite !run_chunks by apply serve_inv. rewrite H. reflexivity.
 Qed.
 End Alive.
 
@@ -355,47 +394,59 @@ Qed.
 Section Lines.
 Hypothesis HT : crash_free_table = true.
 Hypothesis HA : alias_not_help = true.
+Variable E : env.
+Hypothesis HEnc : forall i line, line_enc E i line.
 
-Lemma drain_lines : forall E n st, alive st = true ->
+Lemma drain_lines : forall n st, alive st = true ->
   drain n E st = let '(ls, r) := split_lines n (buf st) in set_buf (fold_left (process E) ls st) r.
 Proof.
-  intros E n. induction n as [|n IH]; intros st Al; simpl.
+  intros n. induction n as [|n IH]; intros st Al; simpl.
   - symmetry. apply set_buf_same.
   - rewrite Al. destruct (get_msg (buf st)) as [[l rest]|] eqn:G.
-    + rewrite IH; [|rewrite (process_alive HT HA); exact Al].
+    + rewrite IH; [|rewrite (process_alive HT HA E HEnc); exact Al].
       rewrite process_buf. simpl.
       destruct (split_lines n rest) as [ls r]. simpl.
       rewrite process_set_buf, fold_process_set_buf. reflexivity.
     + simpl. symmetry. apply set_buf_same.
 Qed.
 
-Lemma feed_lines : forall E st b, alive st = true ->
+Lemma feed_lines : forall st b, alive st = true ->
   feed E st b = let '(ls, r) := lines_of (buf st ++ b) in set_buf (fold_left (process E) ls st) r.
 Proof.
-  intros E st b Al. unfold feed. rewrite Al. rewrite drain_lines by exact Al. simpl buf.
+  intros st b Al. unfold feed. rewrite Al. rewrite drain_lines by exact Al. simpl buf.
   unfold lines_of. destruct (split_lines (S (length (buf st ++ b))) (buf st ++ b)) as [ls r].
   rewrite fold_process_set_buf. reflexivity.
 Qed.
 
 (* however the stream is cut into segments, the connection processes the complete lines of the stream,
    one after the other, and keeps the unterminated rest *)
-Lemma serve_lines : forall E evs0 cs,
+Lemma serve_lines : forall evs0 cs,
   let st := serve E evs0 in
   run E st (map Chunk cs) =
   let '(ls, r) := lines_of (buf st ++ concat cs) in set_buf (fold_left (process E) ls st) r.
 Proof.
-  intros E evs0 cs st. rewrite (run_chunks HT HA) by apply (serve_inv HT HA).
-  apply feed_lines. apply (serve_alive HT HA).
+  intros evs0 cs st. rewrite (run_chunks HT HA E HEnc) by apply (serve_inv HT HA E HEnc).
+  apply feed_lines. apply (serve_alive HT HA E HEnc).
 Qed.
 End Lines.
 
 (* ------------------------------------------------------------------ what is emitted for one line *)
 Lemma process_output : forall E st line pre r c,
-  answer E (nline st) line = (OReply pre r, c) ->
+  answer E (nline st) line = (OReply pre r, c) -> forallb encodable (pre ++ [r]) = true ->
   output (process E st line) = output st ++ frames pre ++ [encode_frame r].
 Proof.
-  intros E st line pre r c H. unfold process, output. rewrite H. simpl.
+  intros E st line pre r c H He. unfold process, output. rewrite H, (send_seq_all _ He). simpl.
   rewrite rev_app_distr, rev_involutive. unfold frames. rewrite map_app. reflexivity.
+Qed.
+
+(* a reply that can not be encoded: the messages before it are sent, the reply is not, and the exception leaves
+   the request loop (what happens when json.dumps hands a lone surrogate through to str.encode) *)
+Lemma process_unencodable : forall E st line pre r c,
+  answer E (nline st) line = (OReply pre r, c) -> forallb encodable pre = true -> encodable r = false ->
+  output (process E st line) = output st ++ frames pre /\ alive (process E st line) = false.
+Proof.
+  intros E st line pre r c H Hp Hr. unfold process, output. rewrite H, (send_seq_stop pre r [] Hp Hr). simpl.
+  rewrite rev_app_distr, rev_involutive. split; [reflexivity|apply andb_false_r].
 Qed.
 
 (* ------------------------------------------------------------------ classification of the reply *)
